@@ -114,7 +114,7 @@ func c20Exec(t *testing.T, scn c20Scenario, ch *mc.Chooser) mc.Result {
 					old.ExpireAt = now + 50021
 				}
 				olds[p.Key] = old
-				srv.Put(e.TargetDB, p.Key, old)
+				srv.Put(e.TargetDB, e.TargetKey, old)
 			}
 		}}
 		out := rdbRun(scn.rdbScenario, built, ch, hooks)
@@ -135,6 +135,9 @@ func c20Oracle(scn c20Scenario, built *rdbBuilt, out *rdbOutcome, olds map[strin
 		parts := strings.Split(r.Sig, ":")
 		if len(parts) > 5 {
 			r.Sig = strings.Join(parts[:5], ":")
+		}
+		if strings.Contains(r.Sig, "hashtag-not-applied") && len(parts) > 3 {
+			r.Sig = "C20:hashtag-not-applied:" + parts[3] // one defect whatever the policy and path
 		}
 	}
 	return r
@@ -181,7 +184,7 @@ func c20Judge(scn c20Scenario, built *rdbBuilt, out *rdbOutcome, olds map[string
 	}
 	unchanged := func(e *rdbExpect) *mc.Result {
 		old := olds[e.Spec.Key]
-		got := srv.Get(e.TargetDB, e.Spec.Key)
+		got := srv.Get(e.TargetDB, e.TargetKey)
 		if c20State(got) != c20State(old) {
 			class := "modified"
 			if policy == "ignore" {
@@ -191,7 +194,7 @@ func c20Judge(scn c20Scenario, built *rdbBuilt, out *rdbOutcome, olds map[string
 				detail(map[string]interface{}{"key": e.Spec.Key, "before": c20State(old), "after": c20State(got), "snapshot_value": rdbClipLines(rdbCanon(e.Value))}))
 			return &r
 		}
-		if w := c20Writes(execLog, e.TargetDB, e.Spec.Key); len(w) > 0 {
+		if w := c20Writes(execLog, e.TargetDB, e.TargetKey); len(w) > 0 {
 			r := mc.Violation("the target executed a write on a pre-existing key although the policy is "+policy, prefix+":"+map[bool]string{true: "not-skipped", false: "write-request"}[policy == "ignore"],
 				detail(map[string]interface{}{"key": e.Spec.Key, "writes": w}))
 			return &r
@@ -209,10 +212,10 @@ func c20Judge(scn c20Scenario, built *rdbBuilt, out *rdbOutcome, olds map[string
 			}
 		}
 		// every other key: as in a plain full sync
-		rest := &rdbBuilt{File: built.File, ByKey: built.ByKey, Allow: built.Allow}
+		rest := &rdbBuilt{File: built.File, ByKey: built.ByKey, ByTarget: built.ByTarget, Allow: built.Allow, TypeAt: built.TypeAt}
 		for _, e := range built.Expect {
 			if _, ok := olds[e.Spec.Key]; ok && !e.Filtered {
-				rest.Allow[fmt.Sprintf("%d/%s", e.TargetDB, e.Spec.Key)] = true
+				rest.Allow[fmt.Sprintf("%d/%s", e.TargetDB, e.TargetKey)] = true
 				continue
 			}
 			rest.Expect = append(rest.Expect, e)
@@ -281,7 +284,16 @@ func c20Enumerate(tier string, f func(c20Scenario)) {
 	if thorough {
 		pars = []int{1, 2}
 	}
-	emit := func(sub c20Subject, path string, chunkAt int) {
+	// subjKey "" = "subj" without ReplaceHashTag; a name with braces switches ReplaceHashTag on: the prior
+	// value then sits under the rewritten name, and the reduced product (both keys in one order, subject
+	// prior {absent, same, other+ttl}, expiry {none, past}, companion absent) is enumerated
+	var emitKey func(sub c20Subject, path string, chunkAt int, subjKey string)
+	emit := func(sub c20Subject, path string, chunkAt int) { emitKey(sub, path, chunkAt, "") }
+	emitKey = func(sub c20Subject, path string, chunkAt int, subjKey string) {
+		hashTag := subjKey != ""
+		if !hashTag {
+			subjKey = "subj"
+		}
 		var cfgBase rdbCfg
 		switch path {
 		case "restore":
@@ -299,16 +311,24 @@ func c20Enumerate(tier string, f func(c20Scenario)) {
 					// expiry of the snapshot's subject key: none, in the future, already past when the
 					// replay runs (replace: the old value must not survive - the key is gone at once;
 					// ignore: the old key stays as it is; error: the replay still has to fail)
-					for _, x := range []string{"", "future", "past"} {
-						for _, sp := range priors {
+					// "now": the snapshot key expires at the very millisecond the replay runs - like "past"
+					for _, x := range []string{"", "future", "past", "now"} {
+						for pi, sp := range priors {
 							for _, compOld := range []bool{false, true} {
 								for _, subjFirst := range []bool{true, false} {
 									if !subjFirst && !(thorough || policy == "error") {
 										continue // key order only matters where the replay stops at a key
 									}
+									if x == "now" && !thorough && (compOld || pi == 2 || pi == 3) {
+										continue // the boundary class with a reduced set of prior states in the quick tier
+									}
+									if hashTag && (compOld || !subjFirst || x == "future" || x == "now" || pi == 2 || pi == 3) {
+										continue
+									}
 									cfg := cfgBase
 									cfg.Policy, cfg.Bisync, cfg.Parallel, cfg.DbMode, cfg.Resume = policy, bi, par, "id", true
-									subj := rdbKeySpec{DB: 0, Key: "subj", Case: sub.Case, Enc: sub.Enc, Exp: x, Idle: -1, Freq: -1}
+									cfg.HashTag = hashTag
+									subj := rdbKeySpec{DB: 0, Key: subjKey, Case: sub.Case, Enc: sub.Enc, Exp: x, Idle: -1, Freq: -1}
 									comp := rdbKeySpec{DB: 0, Key: "comp", Case: "string/short", Enc: ref.RDBEnc{Kind: "raw"}, Exp: "", Idle: -1, Freq: -1}
 									keys := []rdbKeySpec{subj, comp}
 									if !subjFirst {
@@ -316,7 +336,7 @@ func c20Enumerate(tier string, f func(c20Scenario)) {
 									}
 									s := c20Scenario{rdbScenario: rdbScenario{Keys: keys, Version: sub.Version, Aux: true, Cfg: cfg, ChunkAt: chunkAt}, Path: path}
 									if sp.kind != "" {
-										s.Pre = append(s.Pre, c20Pre{Key: "subj", Kind: sp.kind, TTL: sp.ttl})
+										s.Pre = append(s.Pre, c20Pre{Key: subjKey, Kind: sp.kind, TTL: sp.ttl})
 									}
 									if compOld {
 										s.Pre = append(s.Pre, c20Pre{Key: "comp", Kind: "same"})
@@ -334,6 +354,15 @@ func c20Enumerate(tier string, f func(c20Scenario)) {
 		for _, path := range []string{"restore", "expanded", "bulk"} {
 			emit(sub, path, 0)
 		}
+	}
+	// ReplaceHashTag: key names with a tag, a tag at the end, a lone brace
+	for _, key := range []string{"{t}subj", "user{tag}", "order{42"} {
+		for _, sub := range []c20Subject{{"string/short", ref.RDBEnc{Kind: "raw"}, 9}, {"hash/small", ref.RDBEnc{Kind: "listpack"}, 10}, {"list/small", ref.RDBEnc{Kind: "quicklist2", Node: 2}, 10}} {
+			for _, path := range []string{"restore", "expanded"} {
+				emitKey(sub, path, 0, key)
+			}
+		}
+		emitKey(c20Subject{"chunk/h/4", ref.RDBEnc{Kind: "table"}, 9}, "chunked", 64, key)
 	}
 	chunks := []string{"chunk/h/4", "chunk/h/6"}
 	ths := []int{64}
